@@ -40,10 +40,16 @@ __CPROVER_requires(aggr == &g_cw_chP || aggr == &g_cw_chW || aggr == &g_cw_chO)
 __CPROVER_requires(endLevel != NULL && root != NULL)
 __CPROVER_requires(g_vr_h_ref[VR_H_NEW2] == 0 || g_vr_h_ref[VR_H_NEW2] == 1)
 __CPROVER_requires(IMPLIES(aggr == &g_cw_chW, startLevel == (g_cw_wi == 0 ? g_cw_level0 : g_cw_lvlP)))
+/* (audit builderY) the pointer output is stated FIRST and unconditionally with __CPROVER_pointer_equals: dfcc havocs a pointer-typed assigns
+ * target of a replaced contract with ONE symbol shared by all calls on a path, and the loop of the list function runs its first iteration and
+ * the step iteration on the same path; with the assumed equalities below alone 'the aggregation of a LATER chain fails' was infeasible
+ * (REACH guard in C01.wrap_list_aggregate). */
+__CPROVER_ensures(__CPROVER_pointer_equals(*root, __CPROVER_return_value == KSI_OK ? (void *)&g_vr_h[VR_H_NEW2] : (void *)__CPROVER_old(*root)))
 __CPROVER_ensures(IMPLIES(__CPROVER_return_value == KSI_OK, 0 <= startLevel && startLevel <= 0xff && 0 <= *endLevel && *endLevel <= 0xff &&
 		*root == &g_vr_h[VR_H_NEW2] && g_vr_h_ref[VR_H_NEW2] == __CPROVER_old(g_vr_h_ref[VR_H_NEW2]) + 1))
 __CPROVER_ensures(IMPLIES(__CPROVER_return_value == KSI_OK && aggr == &g_cw_chP, *endLevel == g_cw_lvlP))
 __CPROVER_ensures(IMPLIES(__CPROVER_return_value != KSI_OK, *root == __CPROVER_old(*root) && *endLevel == __CPROVER_old(*endLevel) &&
 		g_vr_h_ref[VR_H_NEW2] == __CPROVER_old(g_vr_h_ref[VR_H_NEW2])))
-__CPROVER_assigns(*endLevel, *root, g_vr_h_ref[VR_H_NEW2]);
+__CPROVER_ensures(g_cw_aud_aggfail == (__CPROVER_return_value == KSI_OK ? __CPROVER_old(g_cw_aud_aggfail) : (__CPROVER_old(g_vr_h_ref[VR_H_NEW2]) == 1 ? 2 : 1)))   /* audit ghost */
+__CPROVER_assigns(*endLevel, *root, g_vr_h_ref[VR_H_NEW2], g_cw_aud_aggfail);
 #endif
